@@ -9,6 +9,7 @@ import Jence.Spec.Rules
 import Jence.Spec.Oracle
 import Jence.Lemmas.History
 import Jence.Lemmas.NVal
+import Jence.Lemmas.EvalMirror
 open Jence
 
 def parseHex? (s : String) : Option UInt64 :=
@@ -185,6 +186,12 @@ def cmdNval (rest : String) : List String :=
   | .ok (g, rep), some d => [toString (nVal chessRules rep.pre negaFuel g d 0)]
   | _, _ => ["!none"]
 
+/-- `mirror <dump>`: the colour mirror of T16.3 (`Lemmas/EvalMirror.mirror`), as a dump -/
+def cmdMirror (rest : String) : List String :=
+  match parseDump (words rest) with
+  | none => ["!none"]
+  | some g => [dumpGame (mirror g)]
+
 def cmdFen (rest : String) : List String :=
   match parseFen rest with
   | .none => ["!none"] | .panic => ["!panic"] | .ok g => [dumpGame g]
@@ -319,6 +326,7 @@ def handle (line : String) (tt : TT) : List String × TT :=
      | "attackall" :: s :: r => cmdAttackAll ((parseNat? s).getD 1).toUInt64 ((r.head?.bind parseNat?).getD 1) true
      | "wf" :: _ => cmdWf ((rest.drop 2).trimAscii.toString)
      | "nval" :: _ => cmdNval ((rest.drop 4).trimAscii.toString)
+     | "mirror" :: _ => cmdMirror ((rest.drop 6).trimAscii.toString)
      | _ => Spec.oracle rest, tt)
   | _ => (["!unknown"], tt)
 
